@@ -175,7 +175,13 @@ func runC16(c *fw.Case) {
 	if sds == nil {
 		sds = disttypes.DefaultParams().SubDistributors
 	}
-	n, err := chain.NewNode(chain.GenesisSpec{Time: gen.Epoch, Accounts: accs, Vesting: vg, Minter: minterGenesis(mc.Params, gen.Epoch), Distributor: &disttypes.GenesisState{Params: disttypes.Params{SubDistributors: cloneSubs(sds)}}, OmitICA: true})
+	// period ids need not start at 1 (the rule is: first id > 0, then consecutive)
+	idOffset := []uint32{0, 0, 0, 1, 2, 7}[r.Intn(6)]
+	for _, m := range mc.Sorted {
+		m.SequenceId += idOffset
+	}
+	mgen := minterGenesis(mc.Params, gen.Epoch)
+	n, err := chain.NewNode(chain.GenesisSpec{Time: gen.Epoch, Accounts: accs, Vesting: vg, Minter: mgen, Distributor: &disttypes.GenesisState{Params: disttypes.Params{SubDistributors: cloneSubs(sds)}}, OmitICA: true})
 	if err != nil {
 		c.Inconclusive("staging genesis: %v", err)
 		return
